@@ -998,7 +998,18 @@ func TestPropTamperedBlocksRejected(t *testing.T) {
 				c.Label("p>0")
 			}
 			newState := rapid.Bool().Draw(rt, "newState")
+			// a fifth of the cases on the production store (Pebble v2): the "no trace" comparison then covers what its real batches
+			// leave behind after a rejected Store
 			nd := node.New(newState, nil, u.Net)
+			if gen.Uniform(rt, 5, "pebble") == 0 {
+				pn, cleanup, err := node.NewPebble(newState, u.Net)
+				if err != nil {
+					stats.HarnessError("pebble: %v", err)
+				}
+				defer cleanup()
+				nd = pn
+				c.Label("pebble")
+			}
 			ids := &node.Ids{Addrs: u.AllAddrs()}
 			for _, b := range ch.Blocks[:p] {
 				if err := nd.Store(b); err != nil {
